@@ -13,10 +13,10 @@ VIEW View
 ACTION_CONSTRAINT Emit
 CHECK_DEADLOCK FALSE
 CONSTANTS
-  Sizes = {1, 4, 8}
+  Sizes = {2, 8}
   FrameCounts = {1}
-  Layers = {"d1", "cube"}
-  Minors = {2, 5}
+  Layers = {"d1"}
+  Minors = {4}
   Fmts = {"RGBA8888", "ABGR8888", "RGB888", "BGR888", "RGB565", "I8", "IA88", "A8", "RGB888_BLUESCREEN", "BGR888_BLUESCREEN", "ARGB8888", "BGRA8888", "BGRX8888", "BGR565", "BGRX5551", "BGRA4444", "BGRA5551", "UV88", "UVWQ8888", "UVLX8888"}
   Lows = {"NONE", "IA88"}
   ResKinds = {}
@@ -25,4 +25,4 @@ CONSTANTS
   Fills = {"l0"}
   History = TRUE
   MaxOps = 2
-  Thumbs = {"t16", "t4", "t2x1"}
+  Thumbs = {"t16", "t4"}
